@@ -71,10 +71,9 @@ class C04(Prop):
                     idx = rng.choice([ln, ln + 1, -ln - 1, -ln - 2, -2 * ln, -2 * ln - 1])
                     xp = X.render(t, q, rng) + "[%d]" % idx + rng.choice(["", "", "/a", "[0]"])
                     tag = "oob"
-                if tag == "resolves" and root == "dict" and isinstance(p[-1], str) and rng.random() < 0.35:
-                    # up to the parent and down again through the same key: still the same existing node (dict roots:
-                    # below a list root the '..' step re-resolves the found path against the item it is in and misses;
-                    # the statement does not say what '..' means there, so that is not demanded)
+                if tag == "resolves" and isinstance(p[-1], str) and rng.random() < 0.35:
+                    # up to the parent and down again through the same key: still the same existing node (list roots
+                    # too, since the "fix:" commit 1eca224)
                     xp, tag = xp + "/../" + p[-1], "resolves"
             else:
                 xp = X.gen_soup(rng)
